@@ -72,6 +72,10 @@ where
     /// Reset the internal dictionary.
     pub fn reset(&mut self) -> io::Result<()> {
         self.stream.write_all(self.buf.as_slice())?;
+        #[cfg(feature = "verif")]
+        crate::verif::emit(crate::verif::Event::AccumReset {
+            flushed: self.buf.len(),
+        });
         self.buf.clear();
         self.len = 0;
         Ok(())
@@ -125,6 +129,8 @@ where
     fn append_lz(&mut self, len: usize, dist: usize) -> error::Result<()> {
         lzma_debug!("LZ {{ len: {}, dist: {} }}", len, dist);
         let buf_len = self.buf.len();
+        #[cfg(feature = "verif")]
+        crate::verif::emit(crate::verif::Event::AccumCopy { len, dist, buf_len });
         if dist > buf_len {
             return Err(error::Error::LzmaError(format!(
                 "LZ distance {} is beyond output size {}",
@@ -209,6 +215,11 @@ where
         if self.buf.len() < new_len {
             if new_len <= self.memlimit {
                 self.buf.resize(new_len, 0);
+                #[cfg(feature = "verif")]
+                crate::verif::emit(crate::verif::Event::WinGrow {
+                    buf_len: self.buf.len(),
+                    memlimit: self.memlimit,
+                });
             } else {
                 return Err(error::Error::LzmaError(format!(
                     "exceeded memory limit of {}",
@@ -263,6 +274,8 @@ where
         // Flush the circular buffer to the output
         if self.cursor == self.dict_size {
             self.stream.write_all(self.buf.as_slice())?;
+            #[cfg(feature = "verif")]
+            crate::verif::emit(crate::verif::Event::WinFlush { n: self.buf.len() });
             self.cursor = 0;
         }
 
@@ -271,6 +284,14 @@ where
 
     fn append_lz(&mut self, len: usize, dist: usize) -> error::Result<()> {
         lzma_debug!("LZ {{ len: {}, dist: {} }}", len, dist);
+        #[cfg(feature = "verif")]
+        crate::verif::emit(crate::verif::Event::LzCopy {
+            len,
+            dist,
+            cursor: self.cursor,
+            dict_size: self.dict_size,
+            total: self.len,
+        });
         if dist > self.dict_size {
             return Err(error::Error::LzmaError(format!(
                 "LZ distance {} is beyond dictionary size {}",
@@ -309,6 +330,8 @@ where
     fn finish(mut self) -> io::Result<W> {
         if self.cursor > 0 {
             self.stream.write_all(&self.buf[0..self.cursor])?;
+            #[cfg(feature = "verif")]
+            crate::verif::emit(crate::verif::Event::WinFlush { n: self.cursor });
         }
         self.stream.flush()?;
         Ok(self.stream)
